@@ -36,7 +36,9 @@ MINIMA = {"quick": {"reads_compared": 3000, "boundary_straddling_requests": 500,
 MECH = "multi-extent"
 NAMES = ["disk", "my disk", "Windows 10 x64 #2", "d (copy)", "dísk-ü", "диск", "磁盘", "disk😀", "a'b", 'q"uote', "x #1 y", "sp  ace", "tab-x", "100% real", "semi;colon", "eq=sign",
          # an embedded quote followed by a blank and a few tokens (looks like the end of the quoted name, is not)
-         'my "old" 2 disk', 'q" 5 b', 'copy" 0 x y', 'end" 7']
+         'my "old" 2 disk', 'q" 5 b', 'copy" 0 x y', 'end" 7',
+         # characters that some line-splitting routines (not the format) treat as line ends
+         "line\u2028sep", "para\u2029graph", "next\u0085line", "vt\x0btab", "form\x0cfeed", "fs\x1cgs\x1drs\x1e"]
 
 
 def plan(tier: str, seed: int) -> list[dict]:
@@ -111,6 +113,12 @@ def run(case: dict, ctx) -> dict:
             suffix = {"FLAT": f"-f{j + 1:03d}", "VMFS": "-flat", "SPARSE": f"-s{j + 1:03d}", "VMFSSPARSE": "-delta", "SESPARSE": "-sesparse"}[kind]
             fn = f"{base}{suffix}{j if kind in ('VMFS', 'VMFSSPARSE', 'SESPARSE') else ''}.vmdk"
             sf.write_to(d / fn)
+            if kind in ("FLAT", "VMFS") and cap > 2 and rng.random() < 0.25:
+                # a flat file longer than the extent line says (preallocated / rounded up): the declared sector count decides
+                cap -= rng.randrange(1, min(cap, 20))
+                layer_cut = True
+            else:
+                layer_cut = False
             access = rng.choice(["RW", "RW", "RDONLY"])
             lines.append(f'{access} {cap} {kind} "{fn}"' + (" 0" if kind in ("FLAT", "VMFS") and rng.random() < 0.7 else ""))
             parts.append(Model(cap * SECTOR, [layer]))
@@ -205,6 +213,7 @@ def run(case: dict, ctx) -> dict:
     start = 0
     kinds = []
     same_names = rng.random() < 0.3
+    oversized = 0
     for j in range(nst):
         if rng.random() < 0.7:
             ms = rng.choice([1, 8, 16, 64])
@@ -218,6 +227,12 @@ def run(case: dict, ctx) -> dict:
             sf, layer, meta = w.build_flat(rng, nsectors=nsec, tag=rng.getrandbits(48))
             typ = "Plain"
             parts.append(Model(meta["size"], [layer]))
+        if nsec > 2 and rng.random() < 0.3:
+            # the image is larger than the range its storage occupies (preallocated tail, capacity rounded up to whole
+            # clusters): the storage's sector range decides, the surplus is never visible
+            nsec -= rng.randrange(1, min(nsec, 40))
+            parts[-1] = Model(nsec * SECTOR, [layer])
+            oversized += 1
         fn = f"m.hdd.{j}.{g}.hds"
         if same_names:
             # images of the same base name in per-storage sub-directories of the bundle
@@ -247,6 +262,7 @@ def run(case: dict, ctx) -> dict:
     cnt["boundary_straddling_requests"] = sum(1 for o_, n_ in reqs for b in bounds[:-1] if o_ < b < o_ + n_)
     cnt["hdd_cases"] = 1
     cnt["hdd_same_base_name_in_subdirs"] = int(same_names)
+    cnt["hdd_images_larger_than_their_storage"] = oversized
     res["sets"]["storage_kind_sequences"] = ["+".join(kinds)]
     res["nontrivial"] = True
     res["sig"] = ("hdd", tuple(kinds), tuple(s["end"] for s in storages))
